@@ -369,6 +369,14 @@ def run_case(concepts, case, spec):
         call(list, lat.downset_union(lat))
         call(list, lat.upset_union(lat.atoms))
         call(list, lat.downset_union(lat.atoms))
+    if len(ctx.objects) <= 12 and len(ctx.properties) <= 12 and n <= 200:
+        common.interference(concepts, ctx, lat, rng, 15)
+        for _ in range(8):
+            c = members[rng.randrange(n)]
+            call(list, c.upset())
+            call(list, c.downset())
+            call(list, lat.upset_union([c, members[rng.randrange(n)]]))
+        COL.count('asked_again_after_interference')
     call(list, lat.upset_union([]))
     call(list, lat.downset_union(()))
     for _ in range(4):                  # abandoned traversals
